@@ -107,6 +107,7 @@ type input struct {
 	CSec     secIn             `json:"csec"`
 	Cfgs     []cfgIn           `json:"cfgs"`
 	CData    map[string]string `json:"cdata"`
+	Foreign  string            `json:"foreign"` // e2eobs: how the cache serves the referenced composed resources: "cached" | "miss"
 }
 
 // value atoms <-> bytes
@@ -578,6 +579,8 @@ func runVector(in *input) []map[string]any {
 		return runE2E(in)
 	case "e2ept":
 		return runE2EPT(in)
+	case "e2eobs":
+		return runE2EObs(in)
 	}
 	panic("unknown family " + in.Fam)
 }
